@@ -447,8 +447,8 @@ class ExcelModel:
             if isinstance(c, Ref) and c.inputs:
                 if c.func.dsp.function_nodes:
                     continue
-                inp = c.output
-                if set(pred[inp]) == {c.func.function_id}:
+                inp, fid = c.output, list(pred[c.output])
+                if len(fid) == 1 and nodes[fid[0]]['function'] is c.func:
                     out = list(c.inputs)[0]
                     if not any(out in succ[k] for k in succ[inp]):
                         dsp.add_function(
